@@ -121,3 +121,85 @@ func depthQueryHistories(r *Run, prop string) {
 	}
 	r.Hist("depth_query_histories", "checked")
 }
+
+// twoSolversOneNetwork: every FastNetworkSolver() call hands out a solver of its own, built from the network as it
+// is at that moment: two solvers of one network do not influence each other, a later solver follows weights that
+// were changed in place meanwhile, and a solver requested while another one is in use is as fresh as the solver of
+// a separately built copy of the network.
+func twoSolversOneNetwork(r *Run, prop string) {
+	for k := 0; k < r.N(40, 600); k++ {
+		var n c12Net
+		if prop == "C12" {
+			g, _ := c12RandomGen(r.Rng, k)
+			n = c12GenDAG(r.Rng, g)
+		} else {
+			g := c13Gen{nIn: 1 + r.Rng.Intn(2), nBias: r.Rng.Intn(2), nHid: 1 + r.Rng.Intn(4), nOut: 1 + r.Rng.Intn(2),
+				pEdge: 0.25 + 0.3*r.Rng.Float64(), family: []string{"random", "self-loop", "2-cycle"}[k%3], shuffle: k%2 == 0}
+			n = c13GenGraph(r.Rng, g)
+		}
+		nIn := c12CountRole(n, 1)
+		net, all := c12Build(n)
+		other, _ := c12Build(n) // a separately built copy
+		s1, c1 := c12FastBuild(net)
+		if s1 == nil || c1 != 1 {
+			continue
+		}
+		x1, x2 := c12RandVec(r.Rng, nIn), c12RandVec(r.Rng, nIn)
+		steps := 1 + r.Rng.Intn(4)
+		run := func(s network.Solver, x []float64) string {
+			var out []string
+			for i := 0; i < 2; i++ {
+				_ = s.LoadSensors(x)
+				_, _ = s.ForwardSteps(steps)
+				o := s.ReadOutputs()
+				for _, v := range o {
+					out = append(out, fmt.Sprintf("%016x", c15FmBits(v)))
+				}
+			}
+			return fmt.Sprint(out)
+		}
+		in := map[string]interface{}{"kind": "two-solvers-one-network", "net": n, "x1": x1, "x2": x2, "steps": steps}
+		// history on the first solver, then a second solver from the SAME network while the first is alive
+		_ = run(s1, x1)
+		s2, c2 := c12FastBuild(net)
+		sRef, cr := c12FastBuild(other)
+		if s2 == nil || sRef == nil || c2 != 1 || cr != 1 {
+			continue
+		}
+		got, want := run(s2, x2), run(sRef, x2)
+		if got != want {
+			r.Fail(Failure{Key: "fast-solver-not-fresh second-solver-of-one-network", What: "a fast solver requested from a network that already handed one out does not behave like the solver of a separately built copy of the network",
+				Input: in, Observed: got, Required: want})
+			continue
+		}
+		// the first solver is not disturbed by the second one's existence and use
+		a := run(s1, x1)
+		s1b, _ := c12FastBuild(other)
+		_ = run(s1b, x1)
+		if b := run(s1b, x1); a != b {
+			r.Fail(Failure{Key: "fast-solver-disturbed by-second-solver", What: "using a second solver of the same network changed what the first solver computes", Input: in, Observed: a, Required: b})
+			continue
+		}
+		// weights rewritten in place: a solver requested afterwards computes with the new weights
+		for _, nd := range all {
+			for _, l := range nd.Incoming {
+				l.ConnectionWeight = l.ConnectionWeight*0.5 + 0.25
+			}
+		}
+		for _, nd := range other.AllNodes() {
+			for _, l := range nd.Incoming {
+				l.ConnectionWeight = l.ConnectionWeight*0.5 + 0.25
+			}
+		}
+		s3, c3 := c12FastBuild(net)
+		s3Ref, c3r := c12FastBuild(other)
+		if s3 == nil || s3Ref == nil || c3 != 1 || c3r != 1 {
+			continue
+		}
+		if got, want := run(s3, x2), run(s3Ref, x2); got != want {
+			r.Fail(Failure{Key: "fast-solver-stale-weights", What: "a fast solver requested after the link weights were changed in place still computes with the old weights", Input: in, Observed: got, Required: want})
+		}
+		r.Count(fmt.Sprint("two ", k, x1, x2, steps), true)
+	}
+	r.Hist("two_solvers_one_network", "checked")
+}
